@@ -41,14 +41,20 @@ func (t *BandwidthToxic) Pipe(stub *ToxicStub) {
 			}
 			// If the rate is low enough, split the packet up and send in 100 millisecond intervals
 			// (rate*100 must neither be negative nor overflow: it is used as a slice bound)
-			for t.Rate >= 0 && t.Rate <= math.MaxInt64/100 && int64(len(p.Data)) > t.Rate*100 {
+			for {
+				// The rate can be updated while the timer below is running: the test and
+				// the cut must use the same value, or the cut can leave the packet.
+				rate := t.Rate
+				if rate < 0 || rate > math.MaxInt64/100 || int64(len(p.Data)) <= rate*100 {
+					break
+				}
 				select {
 				case <-time.After(100 * time.Millisecond):
 					stub.Output <- &stream.StreamChunk{
-						Data:      p.Data[:t.Rate*100],
+						Data:      p.Data[:rate*100],
 						Timestamp: p.Timestamp,
 					}
-					p.Data = p.Data[t.Rate*100:]
+					p.Data = p.Data[rate*100:]
 					sleep -= 100 * time.Millisecond
 				case <-stub.Interrupt:
 					logger.Trace().Msg("BandwidthToxic was interrupted during writing data")
